@@ -788,7 +788,23 @@ def r15_padding_fits_its_nibble(cx):
                         seen_l, work = set(), [op]
                         while work:
                             o_ = work.pop()
-                            l = op_local(o_) if op_place(o_) is not None and not op_place(o_).get("p") else None
+                            pl_ = op_place(o_)
+                            if pl_ is None:
+                                continue
+                            fs_ = [e["f"] for e in pl_.get("p", []) if isinstance(e, dict) and "f" in e]
+                            if fs_:
+                                # `let (q, r) = (x / C, x % C)`: the field of a tuple built in this body
+                                for d in b.defs().get(pl_["l"], []):
+                                    if d[0] == "stmt" and d[3]["k"] == "assign" and not d[3]["lhs"].get("p") and d[3]["rv"]["k"] == "agg" and d[3]["rv"].get("ak") == "tuple" and fs_[0] < len(d[3]["rv"]["fields"]):
+                                        work.append(d[3]["rv"]["fields"][fs_[0]])
+                                    elif d[0] == "stmt" and d[3]["k"] == "assign" and [e.get("f") for e in d[3]["lhs"].get("p", []) if isinstance(e, dict)] == fs_[:1]:
+                                        rv2 = d[3]["rv"]
+                                        if rv2["k"] in ("use", "cast"):
+                                            work.append(rv2["op"])
+                                        elif rv2["k"] == "bin" and rv2["op"] == "Rem" and op_const_deep(b, rv2["b"]) is not None:
+                                            mins.append(op_const_deep(b, rv2["b"]) - 1)
+                                continue
+                            l = pl_["l"] if not pl_.get("p") else None
                             if l is None or l in seen_l:
                                 continue
                             seen_l.add(l)
